@@ -17,6 +17,7 @@ import (
 	"context"
 	"fmt"
 	"math"
+	"runtime/debug"
 	"sort"
 	"strconv"
 	"strings"
@@ -57,6 +58,7 @@ var arbScheme = runtime.NewScheme()
 
 func TestVerifSim(t *testing.T) {
 	klog.SetLogger(logr.Discard())
+	debug.SetGCPercent(400) // the fake client produces a lot of short-lived JSON garbage
 	// only the two kinds the arbitrator touches: the fake client derives a REST mapper from the whole scheme on every write
 	arbScheme.AddKnownTypes(corev1.SchemeGroupVersion, &corev1.Pod{}, &corev1.PodList{})
 	metav1.AddToGroupVersion(arbScheme, corev1.SchemeGroupVersion)
@@ -113,6 +115,7 @@ type arbOp struct {
 	V     int    `json:"v,omitempty"`
 	By    string `json:"by,omitempty"`    // create: user | desched
 	NoUID bool   `json:"nouid,omitempty"` // create by user: podRef carries namespace/name only
+	Dup   bool   `json:"dup,omitempty"`   // create by user: even if the pod already has a live job
 	Phase string `json:"phase,omitempty"` // seed: Running | Pending ; finish: Succeeded | Failed | Aborted
 }
 
@@ -130,12 +133,12 @@ func (arbiterEngine) Generate(p *sim.Plan, g *sim.Rng) {
 		}
 		return g.Range(1, hi)
 	}
-	cfg.MaxGlobal, cfg.MaxNode, cfg.MaxNS = limit(5), limit(3), limit(4)
+	cfg.MaxGlobal, cfg.MaxNode, cfg.MaxNS = limit(8), limit(4), limit(6)
 	cfg.WlPercent = g.Bool(0.25)
 	if cfg.WlPercent {
 		cfg.MaxMigWl, cfg.MaxUnavailWl = g.PickInt(25, 50), g.PickInt(25, 50, 75)
 	} else {
-		cfg.MaxMigWl, cfg.MaxUnavailWl = g.Range(1, 3), g.Range(1, 4)
+		cfg.MaxMigWl, cfg.MaxUnavailWl = g.Range(1, 4), g.Range(1, 5)
 	}
 	cfg.SkipReplicas = g.Bool(0.5)
 	nW := g.Range(2, 4)
@@ -155,7 +158,7 @@ func (arbiterEngine) Generate(p *sim.Plan, g *sim.Rng) {
 			n++
 		}
 		for i := 0; i < n; i++ {
-			cfg.Pods = append(cfg.Pods, arbPodCfg{W: w, NS: wl.NS, Node: g.Intn(cfg.Nodes), Ready: !g.Bool(0.15), Prio: g.PickInt(0, 0, 1000, 5000), MaxCost: g.Bool(0.03)})
+			cfg.Pods = append(cfg.Pods, arbPodCfg{W: w, NS: wl.NS, Node: g.Intn(cfg.Nodes), Ready: !g.Bool(0.08), Prio: g.PickInt(0, 0, 1000, 5000), MaxCost: g.Bool(0.03)})
 		}
 	}
 	for i := g.Intn(3); i > 0; i-- {
@@ -165,7 +168,7 @@ func (arbiterEngine) Generate(p *sim.Plan, g *sim.Rng) {
 	var ops []arbOp
 	nextJob := 0
 	// jobs that are already running / already passed when the story begins (e.g. admitted under an older configuration)
-	for i := g.Intn(5); i > 0; i-- {
+	for i := g.Intn(4); i > 0; i-- {
 		ops = append(ops, arbOp{K: "seed", J: nextJob, P: g.Intn(nPods), Phase: g.Pick("Running", "Running", "Pending")})
 		nextJob++
 	}
@@ -216,11 +219,12 @@ func (arbiterEngine) Generate(p *sim.Plan, g *sim.Rng) {
 			} else if g.Bool(0.2) {
 				op.NoUID = true
 			}
-			if g.Bool(0.85) {
+			if g.Bool(0.88) {
 				op.P = cursor % nPods
 				cursor++
 			} else {
 				op.P = g.Intn(nPods) // possibly a pod that already has a job
+				op.Dup = op.By == "user" && g.Bool(0.4)
 			}
 			ops = append(ops, op)
 			if g.Bool(0.08) {
@@ -231,10 +235,10 @@ func (arbiterEngine) Generate(p *sim.Plan, g *sim.Rng) {
 	}
 	p.SetCfg(cfg)
 	p.SetOps(ops)
-	if g.Bool(0.35) {
+	if g.Bool(0.25) {
 		p.FaultRate = 0
 	} else {
-		p.FaultRate = []float64{0.03, 0.1, 0.25}[g.Intn(3)]
+		p.FaultRate = []float64{0.05, 0.15, 0.3}[g.Intn(3)]
 		kinds := []string{"err-before", "err-after", "conflict"}
 		for _, k := range kinds {
 			if g.Bool(0.45) {
@@ -271,11 +275,16 @@ type arbSim struct {
 	queue   *arbQueue
 
 	pods       []arbPodState
-	replicas   []int // current spec.replicas per workload
+	podM       map[string]*corev1.Pod                // mirror of the store's pods ("ns/name"), refreshed after every write (cross-checked against the store at the end)
+	jobM       map[string]*sev1alpha1.PodMigrationJob // mirror of the store's jobs (name)
+	replicas   []int                                 // current spec.replicas per workload
 	events     []arbEvent
 	delivered  map[string]bool // job name -> its Create event reached the arbitrator
 	statusFlt  map[string]bool // job name -> a status update of the arbitrator for it was hit by a fault
 	lostAck    map[string]bool // job name -> its passed-annotation update was applied but reported as failed
+	// lostAckOpen: during the current round some pending job is marked as passed in the store while the arbitrator does not
+	// know it, because the answer to its update was lost (the history class of the recorded defect)
+	lostAckOpen bool
 	createdBy  map[string]string
 	creatorsOn bool
 	timerOn    bool
@@ -361,14 +370,13 @@ func arbIsReady(p *corev1.Pod) bool {
 type arbFinder struct{ h *arbSim }
 
 func (f *arbFinder) podsOf(uid types.UID, ns string) []*corev1.Pod {
-	l := &corev1.PodList{}
-	if err := f.h.base.List(context.TODO(), l, client.InNamespace(ns)); err != nil {
-		f.h.r.HarnessFail("list pods: %v", err)
-	}
 	var out []*corev1.Pod
-	for i := range l.Items {
-		if ref := metav1.GetControllerOf(&l.Items[i]); ref != nil && ref.UID == uid {
-			out = append(out, &l.Items[i])
+	for _, p := range f.h.podM {
+		if p.Namespace != ns {
+			continue
+		}
+		if ref := metav1.GetControllerOf(p); ref != nil && ref.UID == uid {
+			out = append(out, p)
 		}
 	}
 	sort.Slice(out, func(i, j int) bool { return out[i].Name < out[j].Name })
@@ -407,15 +415,70 @@ func (h *arbSim) pushEvent(kind string, old, obj *sev1alpha1.PodMigrationJob) {
 	h.events = append(h.events, arbEvent{kind: kind, old: old, obj: obj})
 }
 
+// getJob reads the job from the store and refreshes the mirror.
 func (h *arbSim) getJob(name string) *sev1alpha1.PodMigrationJob {
 	j := &sev1alpha1.PodMigrationJob{}
 	if err := h.base.Get(context.TODO(), types.NamespacedName{Name: name}, j); err != nil {
 		if apierrors.IsNotFound(err) {
+			delete(h.jobM, name)
 			return nil
 		}
 		h.r.HarnessFail("get job %s: %v", name, err)
 	}
-	return j
+	h.jobM[name] = j
+	return j.DeepCopy()
+}
+
+// syncPod refreshes the mirror entry of pod i (current generation) from the store.
+func (h *arbSim) syncPod(ns, name string) *corev1.Pod {
+	p := &corev1.Pod{}
+	if err := h.base.Get(context.TODO(), types.NamespacedName{Namespace: ns, Name: name}, p); err != nil {
+		if apierrors.IsNotFound(err) {
+			delete(h.podM, ns+"/"+name)
+			return nil
+		}
+		h.r.HarnessFail("get pod %s/%s: %v", ns, name, err)
+	}
+	h.podM[ns+"/"+name] = p
+	return p
+}
+
+func (h *arbSim) sortedJobs() []*sev1alpha1.PodMigrationJob {
+	out := make([]*sev1alpha1.PodMigrationJob, 0, len(h.jobM))
+	for _, j := range h.jobM {
+		out = append(out, j)
+	}
+	sort.Slice(out, func(i, j int) bool { return out[i].Name < out[j].Name })
+	return out
+}
+
+// crossCheck: the mirrors the oracles read must equal the store.
+func (h *arbSim) crossCheck() {
+	pl := &corev1.PodList{}
+	jl := &sev1alpha1.PodMigrationJobList{}
+	if err := h.base.List(context.TODO(), pl); err != nil {
+		h.r.HarnessFail("list pods: %v", err)
+	}
+	if err := h.base.List(context.TODO(), jl); err != nil {
+		h.r.HarnessFail("list jobs: %v", err)
+	}
+	if len(pl.Items) != len(h.podM) || len(jl.Items) != len(h.jobM) {
+		h.r.HarnessFail("mirror out of sync: store has %d pods / %d jobs, mirror %d / %d", len(pl.Items), len(jl.Items), len(h.podM), len(h.jobM))
+	}
+	for i := range pl.Items {
+		p := &pl.Items[i]
+		m := h.podM[p.Namespace+"/"+p.Name]
+		if m == nil || m.ResourceVersion != p.ResourceVersion || m.Spec.NodeName != p.Spec.NodeName || arbIsReady(m) != arbIsReady(p) {
+			h.r.HarnessFail("mirror out of sync for pod %s/%s", p.Namespace, p.Name)
+		}
+	}
+	for i := range jl.Items {
+		j := &jl.Items[i]
+		m := h.jobM[j.Name]
+		if m == nil || m.ResourceVersion != j.ResourceVersion || m.Status.Phase != j.Status.Phase || m.Annotations[AnnotationPassedArbitration] != j.Annotations[AnnotationPassedArbitration] {
+			h.r.HarnessFail("mirror out of sync for job %s", j.Name)
+		}
+	}
 }
 
 var arbJobGR = schema.GroupResource{Group: sev1alpha1.GroupVersion.Group, Resource: "podmigrationjobs"}
@@ -455,7 +518,8 @@ func (h *arbSim) interceptors() interceptor.Funcs {
 				h.pushEvent("update", old, h.getJob(job.Name))
 				if cp.Annotations[AnnotationPassedArbitration] == "true" && (old == nil || old.Annotations[AnnotationPassedArbitration] != "true") {
 					h.lostAck[job.Name] = true
-					r.Tag(arbTagLostAck)
+					h.lostAckOpen = true
+					r.Probe("passed-update-lost-ack")
 				}
 				r.Event("api update %s -> applied, answer lost", job.Name)
 				return apierrors.NewTimeoutError("injected: request timed out after it was applied", 1)
@@ -596,10 +660,16 @@ func (h *arbSim) build() {
 		h.replicas = append(h.replicas, cfg.Workloads[w].Replicas)
 	}
 	for i, pc := range cfg.Pods {
-		if err := h.base.Create(context.TODO(), h.newPodObj(i, pc.Node, pc.Ready)); err != nil {
-			h.r.HarnessFail("create pod: %v", err)
-		}
+		h.createPod(i, pc.Node, pc.Ready)
 	}
+}
+
+func (h *arbSim) createPod(i int, node int, ready bool) {
+	p := h.newPodObj(i, node, ready)
+	if err := h.base.Create(context.TODO(), p); err != nil {
+		h.r.HarnessFail("create pod: %v", err)
+	}
+	h.podM[p.Namespace+"/"+p.Name] = p
 }
 
 // ---------------------------------------------------------------- model (computed from the store only)
@@ -618,24 +688,13 @@ func arbTerminal(ph string) bool { return ph == "Succeeded" || ph == "Failed" ||
 
 func (h *arbSim) snapshot() *arbSnap {
 	s := &arbSnap{cnt: map[string]int{}, unav: map[string]int{}, phase: map[string]string{}, passed: map[string]bool{}, jobPod: map[string]string{}, podExists: map[string]bool{}, podJobs: map[string][]string{}}
-	pl := &corev1.PodList{}
-	if err := h.base.List(context.TODO(), pl); err != nil {
-		h.r.HarnessFail("list pods: %v", err)
+	pods := h.podM
+	for k := range pods {
+		s.podExists[k] = true
 	}
-	pods := map[string]*corev1.Pod{}
-	for i := range pl.Items {
-		p := &pl.Items[i]
-		pods[p.Namespace+"/"+p.Name] = p
-		s.podExists[p.Namespace+"/"+p.Name] = true
-	}
-	jl := &sev1alpha1.PodMigrationJobList{}
-	if err := h.base.List(context.TODO(), jl); err != nil {
-		h.r.HarnessFail("list jobs: %v", err)
-	}
-	sort.Slice(jl.Items, func(i, j int) bool { return jl.Items[i].Name < jl.Items[j].Name })
+	jobs := h.sortedJobs()
 	migrating := map[string]bool{} // pods (ns/name) that exist and have a live job
-	for i := range jl.Items {
-		j := &jl.Items[i]
+	for _, j := range jobs {
 		ph := string(j.Status.Phase)
 		if ph == "Pending" {
 			ph = ""
@@ -738,6 +797,25 @@ func arbSortedKeys(ms ...map[string]int) []string {
 	return ks
 }
 
+// lostAckWindow: is there a pending job whose passed-arbitration update was applied with a lost answer and that the
+// arbitrator still does not remember as passed?
+func (h *arbSim) lostAckWindow() bool {
+	for _, j := range h.sortedJobs() {
+		if h.lostAck[j.Name] && arbPendingPassed(j) && !h.f.arbitratedPodMigrationJobs[j.UID] {
+			return true
+		}
+	}
+	return false
+}
+
+// failLimit reports a violation of a limit oracle; histories of the recorded lost-ack defect are tagged.
+func (h *arbSim) failLimit(oracle, detail, format string, args ...any) {
+	if h.lostAckOpen {
+		h.r.Tag(arbTagLostAck)
+	}
+	h.r.Fail(oracle, detail, format, args...)
+}
+
 // checkRound evaluates the oracles of the statement over the store before and after one arbitration round.
 func (h *arbSim) checkRound(before, after *arbSnap, waitingBefore map[string]bool) {
 	r := h.r
@@ -760,7 +838,7 @@ func (h *arbSim) checkRound(before, after *arbSnap, waitingBefore map[string]boo
 			continue
 		}
 		if a > max {
-			r.Fail("limit-exceeded", arbKind(k), "round %d: %d pods with a running-or-passed migration job for %s after the round (before: %d), configured maximum %d; newly passed: %v",
+			h.failLimit("limit-exceeded", arbKind(k), "round %d: %d pods with a running-or-passed migration job for %s after the round (before: %d), configured maximum %d; newly passed: %v",
 				h.round, a, k, b, max, arbNewlyPassed(before, after))
 		}
 	}
@@ -780,7 +858,7 @@ func (h *arbSim) checkRound(before, after *arbSnap, waitingBefore map[string]boo
 			r.Probe("unavailable-limit-reached")
 		}
 		if a > max {
-			r.Fail("unavailable-exceeded", "workload", "round %d: workload %s has %d unavailable-or-migrating pods after the round (before: %d), allowed %d (replicas %d); newly passed: %v",
+			h.failLimit("unavailable-exceeded", "workload", "round %d: workload %s has %d unavailable-or-migrating pods after the round (before: %d), allowed %d (replicas %d); newly passed: %v",
 				h.round, k, a, b, max, h.replicas[w], arbNewlyPassed(before, after))
 		}
 	}
@@ -851,8 +929,8 @@ func (h *arbSim) forbidden(podKey string) (bool, string) {
 	if len(parts) != 2 {
 		return false, "job without pod reference"
 	}
-	p := &corev1.Pod{}
-	if err := h.base.Get(context.TODO(), types.NamespacedName{Namespace: parts[0], Name: parts[1]}, p); err != nil {
+	p := h.podM[podKey]
+	if p == nil {
 		return false, "the pod does not exist"
 	}
 	if p.Annotations[extension.AnnotationEvictionCost] == strconv.Itoa(math.MaxInt32) {
@@ -892,22 +970,16 @@ func (h *arbSim) newJobObj(op arbOp, pod int) *sev1alpha1.PodMigrationJob {
 func (h *arbSim) podOK(p int) bool { return p >= 0 && p < len(h.cfg.Pods) }
 
 func (h *arbSim) getPod(i int) *corev1.Pod {
-	p := &corev1.Pod{}
-	if err := h.base.Get(context.TODO(), types.NamespacedName{Namespace: h.podNS(i), Name: h.podName(i)}, p); err != nil {
-		return nil
+	if p := h.podM[h.podNS(i)+"/"+h.podName(i)]; p != nil {
+		return p.DeepCopy()
 	}
-	return p
+	return nil
 }
 
 // liveJobsOf: non-terminal jobs in the store that refer to the pod by UID or by namespace/name.
 func (h *arbSim) liveJobsOf(pod *corev1.Pod) []string {
-	jl := &sev1alpha1.PodMigrationJobList{}
-	if err := h.base.List(context.TODO(), jl); err != nil {
-		h.r.HarnessFail("list jobs: %v", err)
-	}
 	var out []string
-	for i := range jl.Items {
-		j := &jl.Items[i]
+	for _, j := range h.jobM {
 		if arbTerminal(string(j.Status.Phase)) || j.Spec.PodRef == nil {
 			continue
 		}
@@ -952,6 +1024,10 @@ func (h *arbSim) createOp(op arbOp) {
 			return
 		}
 	} else if len(h.liveJobsOf(pod)) > 0 {
+		if !op.Dup {
+			r.OpSkipped()
+			return
+		}
 		r.Probe("user-duplicate-job-for-pod")
 	}
 	job := h.newJobObj(op, op.P)
@@ -987,21 +1063,16 @@ func (h *arbSim) setPhase(j *sev1alpha1.PodMigrationJob, ph sev1alpha1.PodMigrat
 }
 
 func (h *arbSim) pickJob(pred func(j *sev1alpha1.PodMigrationJob) bool) *sev1alpha1.PodMigrationJob {
-	jl := &sev1alpha1.PodMigrationJobList{}
-	if err := h.base.List(context.TODO(), jl); err != nil {
-		h.r.HarnessFail("list jobs: %v", err)
-	}
-	sort.Slice(jl.Items, func(i, j int) bool { return jl.Items[i].Name < jl.Items[j].Name })
 	var c []*sev1alpha1.PodMigrationJob
-	for i := range jl.Items {
-		if pred(&jl.Items[i]) {
-			c = append(c, &jl.Items[i])
+	for _, j := range h.sortedJobs() {
+		if pred(j) {
+			c = append(c, j)
 		}
 	}
 	if len(c) == 0 {
 		return nil
 	}
-	return c[h.r.Choose(len(c))]
+	return c[h.r.Choose(len(c))].DeepCopy()
 }
 
 func arbPendingPassed(j *sev1alpha1.PodMigrationJob) bool {
@@ -1011,11 +1082,10 @@ func arbPendingPassed(j *sev1alpha1.PodMigrationJob) bool {
 func (h *arbSim) replacePod(i int, node int, ready bool) {
 	if old := h.getPod(i); old != nil {
 		_ = h.base.Delete(context.TODO(), old)
+		delete(h.podM, old.Namespace+"/"+old.Name)
 	}
 	h.pods[i].gen++
-	if err := h.base.Create(context.TODO(), h.newPodObj(i, node, ready)); err != nil {
-		h.r.HarnessFail("create pod: %v", err)
-	}
+	h.createPod(i, node, ready)
 }
 
 // envOp runs on the driver between two rounds (nothing of the arbitrator is running).
@@ -1044,6 +1114,7 @@ func (h *arbSim) envOp(op arbOp) {
 				r.HarnessFail("seed job status: %v", err)
 			}
 		}
+		h.getJob(job.Name)
 		// it passed an earlier round of this arbitrator
 		h.f.markJobPassedArbitration(job.UID)
 		h.delivered[job.Name] = true
@@ -1090,6 +1161,7 @@ func (h *arbSim) envOp(op arbOp) {
 		if err := h.base.Delete(context.TODO(), j); err != nil {
 			r.HarnessFail("delete job: %v", err)
 		}
+		delete(h.jobM, j.Name)
 		h.pushEvent("delete", nil, j)
 		r.Event("env delete %s", j.Name)
 	case "pod_ready":
@@ -1105,6 +1177,7 @@ func (h *arbSim) envOp(op arbOp) {
 		if err := h.base.Status().Update(context.TODO(), p); err != nil {
 			r.HarnessFail("pod status: %v", err)
 		}
+		h.syncPod(p.Namespace, p.Name)
 		r.Event("env pod %s ready=%v", p.Name, op.V != 0)
 	case "pod_delete":
 		p := (*corev1.Pod)(nil)
@@ -1116,6 +1189,7 @@ func (h *arbSim) envOp(op arbOp) {
 			return
 		}
 		_ = h.base.Delete(context.TODO(), p)
+		delete(h.podM, p.Namespace+"/"+p.Name)
 		if len(h.liveJobsOf(p)) > 0 {
 			r.Probe("pod-of-live-or-waiting-job-deleted")
 		}
@@ -1168,7 +1242,7 @@ func (h *arbSim) deliver(ev arbEvent) {
 // ---------------------------------------------------------------- execution
 
 func (arbiterEngine) Execute(r *sim.Run) {
-	h := &arbSim{r: r, delivered: map[string]bool{}, statusFlt: map[string]bool{}, lostAck: map[string]bool{}, createdBy: map[string]string{}}
+	h := &arbSim{r: r, podM: map[string]*corev1.Pod{}, jobM: map[string]*sev1alpha1.PodMigrationJob{}, delivered: map[string]bool{}, statusFlt: map[string]bool{}, lostAck: map[string]bool{}, createdBy: map[string]string{}}
 	r.Plan.GetCfg(&h.cfg)
 	var ops []arbOp
 	r.Plan.GetOps(&ops)
@@ -1223,6 +1297,10 @@ func (arbiterEngine) Execute(r *sim.Run) {
 			h.envOp(op)
 		}
 		before := h.snapshot()
+		h.lostAckOpen = h.lostAckWindow()
+		if h.lostAckOpen {
+			r.Probe("round-starts-with-lost-ack-job-unknown-to-arbitrator")
+		}
 		waitingBefore := map[string]bool{}
 		for _, j := range h.a.waitingCollection {
 			waitingBefore[j.Name] = true
@@ -1271,4 +1349,5 @@ func (arbiterEngine) Execute(r *sim.Run) {
 		after := h.snapshot()
 		h.checkRound(before, after, waitingBefore)
 	}
+	h.crossCheck()
 }
